@@ -301,11 +301,15 @@ type fileInfo struct {
 	name string
 	size int64
 	dir  bool
+	link bool
 }
 
 func (fi fileInfo) Name() string { return fi.name }
 func (fi fileInfo) Size() int64  { return fi.size }
 func (fi fileInfo) Mode() fs.FileMode {
+	if fi.link {
+		return fs.ModeSymlink | 0o777
+	}
 	if fi.dir {
 		return fs.ModeDir | 0o755
 	}
@@ -352,15 +356,28 @@ func Stat(name string) (os.FileInfo, error) {
 		return nil, &fs.PathError{Op: "stat", Path: name, Err: syscall.EIO}
 	}
 	st.event("stat %s %s", a, spec.Kind)
-	return fileInfo{name: path.Base(a), size: int64(len(spec.Data)), dir: spec.Kind == "dir"}, nil
+	size := int64(len(spec.Data))
+	if spec.StatSize != nil {
+		size = *spec.StatSize
+	}
+	return fileInfo{name: path.Base(a), size: size, dir: spec.Kind == "dir"}, nil
 }
 
 // Lstat stands in for os.Lstat.
 func Lstat(name string) (os.FileInfo, error) {
-	if cur == nil {
+	st := cur
+	if st == nil {
 		return os.Lstat(name)
 	}
-	return Stat(name)
+	fi, err := Stat(name)
+	if err != nil {
+		return fi, err
+	}
+	if spec, a, lerr := st.lookup("lstat", name); lerr == nil && spec.Kind == "symlink" {
+		// the name is a symbolic link to a regular file with these contents: Stat follows it, Lstat does not
+		return fileInfo{name: path.Base(a), size: 24, link: true}, nil
+	}
+	return fi, nil
 }
 
 // Open stands in for os.Open.
@@ -541,7 +558,11 @@ func (f *File) Stat() (os.FileInfo, error) {
 	if f.sink {
 		return fileInfo{name: "stdout"}, nil
 	}
-	return fileInfo{name: path.Base(f.name), size: int64(len(f.spec.Data)), dir: f.spec.Kind == "dir"}, nil
+	size := int64(len(f.spec.Data))
+	if f.spec.StatSize != nil {
+		size = *f.spec.StatSize
+	}
+	return fileInfo{name: path.Base(f.name), size: size, dir: f.spec.Kind == "dir"}, nil
 }
 
 // Seek supports rewinding a simulated file.
